@@ -24,7 +24,7 @@ def child_main(job, ask):
     if mode == "generate":
         gen = Generator(job["seed"], job["batch"], job.get("tier", "quick"), job)
         cfg = gen.describe_config()
-        while len(steps) < (MAX_STEPS_HAMMER if job["batch"] == "K8" else MAX_STEPS):
+        while len(steps) < (MAX_STEPS_HAMMER if job["batch"] in ("K8", "K9") else MAX_STEPS):
             try:
                 st = gen.next(ex)
             except Exception:
